@@ -196,7 +196,10 @@ def correspondence(ctx, model_ok):
 
 
 def oracle_cases(ctx, corr):
-    return list(getattr(corr, '_cases', sc.CORPUS))
+    cases = list(getattr(corr, '_cases', sc.CORPUS))
+    # a timed-out search followed by another search on the same finder (satisfiable and unsatisfiable classes)
+    again = [dict(c, timeout_first=True) for c in (sc.CORPUS[4], sc.CORPUS[6], sc.CORPUS[0])]
+    return again + cases
 
 
 def oracle(case):
